@@ -32,7 +32,15 @@ def snap(o, volatile=(), _seen=None):
         return ("ref", _seen[oid][0])
     _seen[oid] = (len(_seen), o)  # keep the object alive so that ids are not reused during the traversal
     if isinstance(o, dict):
-        return ("dict", type(o).__name__, [(snap(k, volatile, _seen), snap(v, volatile, _seen)) for k, v in o.items()])
+        items = list(o.items())
+        if type(o) is dict:
+            # a plain dict is a lookup table: its insertion order is not part of what an object "is" (pickling a model rebuilds its lookup
+            # tables in another order); ordered dictionaries (sciris odict, OrderedDict) keep their order, which is observable by index
+            try:
+                items.sort(key=lambda kv: repr(kv[0]))
+            except Exception:
+                pass
+        return ("dict", type(o).__name__, [(snap(k, volatile, _seen), snap(v, volatile, _seen)) for k, v in items])
     if isinstance(o, (list, tuple)):
         return (type(o).__name__, [snap(x, volatile, _seen) for x in o])
     if isinstance(o, (set, frozenset)):
